@@ -231,7 +231,7 @@ func covMode() {
 // heavy32: quick-tier windows that are not traced on the 32-bit platform binary (see core32 above).
 var heavy32 = map[string]bool{
 	"ed25519.Sign(pure)": true, "ed25519.PrivateKey.Sign(added randomness)": true,
-	"x25519.ScalarMult": true, "x25519.ScalarBaseMult": true,
+	"x25519.X25519": true, "x25519.ScalarBaseMult": true,
 	"EdwardsPoint.MulBasepoint(package table)": true, "EdwardsPoint.MultiscalarMul(n=3)": true,
 	"sr25519.MiniSecretKey.ExpandUniform": true, "sr25519.MiniSecretKey.ExpandEd25519": true,
 	"sr25519.SecretKey.PublicKey": true, "sr25519.KeyPair.Sign": true, "ecvrf.Prove": true,
@@ -243,7 +243,7 @@ var heavy32 = map[string]bool{
 // same library routine (wrappers, second/third variants of one algorithm).
 var heavyDuplicate = map[string]bool{
 	"ecvrf.Prove_v10": true, "ecvrf.ProveWithAddedRandomness": true,
-	"x25519.X25519":                    true,
+	"x25519.ScalarMult":                true,
 	"EdwardsPoint.MultiscalarMul(n=1)": true, "EdwardsPoint.MultiscalarMul(n=2)": true,
 	"RistrettoPoint.MultiscalarMul(n=2)": true, "RistrettoPoint.Mul": true,
 	"EdwardsPoint.Mul(secret P, secret s)": true,
@@ -326,6 +326,14 @@ func buildWindows(sigma int) []window {
 	f1, f2, f3 := fe(10), fe(11), fe(12)
 	var xsk, xu, xout [32]byte
 	copy(xsk[:], blob[13][:32])
+	// secrets by the class of the RESULT: for sigma 1 the X25519 secret is a solved-for scalar (found at development time
+	// with crypto/ecdh, independent of the library) whose shared secret with the fixed peer xu starts with two zero bytes
+	// (0000 08d0 9b36 ...): a comparison of the output with the all-zero string that stops at the first non-zero byte
+	// runs longer for this secret than for every other one
+	if sigma == 1 {
+		copy(xsk[:], []byte{0xa9, 0x45, 0xf7, 0x7e, 0xdf, 0xb6, 0x39, 0x71, 0xbf, 0xd7, 0x75, 0x89, 0x2d, 0xd3, 0x8a, 0x5d,
+			0x8f, 0x42, 0x22, 0xd1, 0xec, 0x72, 0x6b, 0xb4, 0xa8, 0xad, 0x37, 0xcf, 0x66, 0xbd, 0x9c, 0x1b})
+	}
 	copy(xu[:], []byte{9, 0, 0, 0, 0, 77, 3, 1, 200, 9, 9, 9, 1, 2, 3, 4, 5, 6, 7, 8, 9, 8, 7, 6, 5, 4, 3, 2, 1, 0, 0, 0x11})
 	var zero32 [32]byte
 	var skZero ed25519.PrivateKey
@@ -391,6 +399,8 @@ func buildWindows(sigma int) []window {
 		{"RistrettoPoint.ConditionalSelect(secret choice)", func() { rp.ConditionalSelect(secR1, secR2, choice) }},
 		// --- scalar arithmetic ---
 		{"Scalar.Add/Sub/Mul/Neg", func() { rs.Add(s1, s2); rs.Sub(&rs, s3); rs.Mul(&rs, s1); rs.Neg(&rs) }},
+		// s1 and s2 are equal by value (distinct objects) for the patterned secrets and different for the generic ones
+		{"Scalar.Mul/Add/Sub(equal or different operands)", func() { rs.Mul(s1, s2); rs.Add(s1, s2); rs.Sub(s1, s2) }},
 		{"Scalar.Invert", func() { rs.Invert(s1) }},
 		{"Scalar.Reduce", func() { rs.Reduce(s2) }},
 		{"Scalar.SetBytesModOrderWide", func() { _, _ = rs.SetBytesModOrderWide(blob[15][:]) }},
